@@ -1,5 +1,6 @@
 (* C07: the hypotheses of the main theorems are satisfiable by concrete,
-   non-trivial filters (threshold 5e-4 as generated from config.py). *)
+   non-trivial filters (with the threshold 5e-4; independent of config.py so that a
+   different threshold does not invalidate the examples). *)
 From Coq Require Import Reals ZArith Lra Lia.
 From Coquelicot Require Import Complex.
 From Flocq Require Import Core.Raux.
@@ -9,40 +10,42 @@ From Verif Require Import lib.C07_Base C07.Model C07.ProofsBasic C07.ProofsGabor
 Ltac Zify.zify_post_hook ::= Z.to_euclidean_division_equations.
 Open Scope R_scope.
 
+Definition ex_eps : R := 1 / 2000.
+
 (* Gabor, std = 1 sample, no L2 scaling: the support is (-4, 4); sample 10 of a
    20-sample buffer lies outside it, modulo the buffer *)
 Example gabor_time_example :
-  let d := gabor_diff_samps src_eps false 1 in
+  let d := gabor_diff_samps ex_eps false 1 in
   (0 <= d <= 4)%Z /\ outside_mod (fst (gabor_supports d)) (snd (gabor_supports d)) 20 10 /\
-  Cmod (gabor_ir false 1 (PI / 4) 20 10) < 2 * src_eps.
+  Cmod (gabor_ir false 1 (PI / 4) 20 10) < 2 * ex_eps.
 Proof.
   cbv zeta.
-  assert (Hd : (0 <= gabor_diff_samps src_eps false 1 <= 4)%Z).
+  assert (Hd : (0 <= gabor_diff_samps ex_eps false 1 <= 4)%Z).
   { unfold gabor_diff_samps. split.
     - rewrite <- (Zceil_IZR 0). apply Zceil_le. apply gabor_diff_samps_real_nonneg. lra.
-    - apply Zceil_glb. unfold gabor_diff_samps_real, gabor_t_support_const, src_eps. interval. }
-  assert (Ho : outside_mod (fst (gabor_supports (gabor_diff_samps src_eps false 1)))
-                           (snd (gabor_supports (gabor_diff_samps src_eps false 1))) 20 10).
+    - apply Zceil_glb. unfold gabor_diff_samps_real, gabor_t_support_const, ex_eps. interval. }
+  assert (Ho : outside_mod (fst (gabor_supports (gabor_diff_samps ex_eps false 1)))
+                           (snd (gabor_supports (gabor_diff_samps ex_eps false 1))) 20 10).
   { unfold gabor_supports, outside_mod; cbn [fst snd]. intros k.
-    set (d := gabor_diff_samps src_eps false 1) in *. lia. }
+    set (d := gabor_diff_samps ex_eps false 1) in *. lia. }
   split; [exact Hd|]. split; [exact Ho|].
-  apply (gabor_ir_outside_supports_l src_eps); try lia; try lra; try exact Ho; try (unfold src_eps; lra).
+  apply (gabor_ir_outside_supports_l ex_eps); try lia; try lra; try exact Ho; try (unfold ex_eps; lra).
 Qed.
 
 (* Gabor, frequency: std = 4, centre PI/2: half-width sqrt(-2 ln eps)/4 < 1; the
    bin at angle PI/8 of an 16-bin response lies outside the support *)
 Example gabor_freq_example :
-  let diff := gabor_diff_ang src_eps false 4 in
+  let diff := gabor_diff_ang ex_eps false 4 in
   diff < 1 /\
   outside_mod_R (PI / 2 - diff) (PI / 2 + diff) (2 * PI) (IZR 1 / IZR 16 * 2 * PI) /\
-  gabor_fr false 4 (PI / 2) (PI / 2 - diff) (PI / 2 + diff) 16 1 < 5 / 2 * src_eps.
+  gabor_fr false 4 (PI / 2) (PI / 2 - diff) (PI / 2 + diff) 16 1 < 5 / 2 * ex_eps.
 Proof.
   cbv zeta.
-  assert (Hd : gabor_diff_ang src_eps false 4 < 1).
-  { unfold gabor_diff_ang, gabor_f_support_const, src_eps. interval. }
-  assert (Hd0 : 0 <= gabor_diff_ang src_eps false 4) by (apply gabor_diff_ang_nonneg; lra).
+  assert (Hd : gabor_diff_ang ex_eps false 4 < 1).
+  { unfold gabor_diff_ang, gabor_f_support_const, ex_eps. interval. }
+  assert (Hd0 : 0 <= gabor_diff_ang ex_eps false 4) by (apply gabor_diff_ang_nonneg; lra).
   assert (HPI : 3 < PI < 4) by (split; interval).
-  assert (Ho : outside_mod_R (PI / 2 - gabor_diff_ang src_eps false 4) (PI / 2 + gabor_diff_ang src_eps false 4)
+  assert (Ho : outside_mod_R (PI / 2 - gabor_diff_ang ex_eps false 4) (PI / 2 + gabor_diff_ang ex_eps false 4)
                              (2 * PI) (IZR 1 / IZR 16 * 2 * PI)).
   { intros k [H1 H2].
     destruct (Z_lt_le_dec k 0) as [Hk|Hk].
@@ -52,40 +55,40 @@ Proof.
       + assert (1 <= IZR k) by (apply (IZR_le 1 k); lia). nra. }
   split; [exact Hd|]. split; [exact Ho|].
   apply gabor_fr_outside_supports_l; try lia; try lra; try exact Ho;
-    try (unfold src_eps; lra); try (intros E; discriminate).
+    try (unfold ex_eps; lra); try (intros E; discriminate).
 Qed.
 
 (* gammatone of order 4, alpha = 1/10, unit gain: c = alpha^4 / 3!; at t = 200 the
    envelope is below the threshold and beyond the mode (n-1)/alpha = 30 *)
 Example gt_time_example :
   let c := (1 / 10) ^ 4 / 6 in
-  (INR 4 - 1) / (1 / 10) <= 200 - 0 /\ gt_habs c (1 / 10) 4 0 200 <= src_eps /\
+  (INR 4 - 1) / (1 / 10) <= 200 - 0 /\ gt_habs c (1 / 10) 4 0 200 <= ex_eps /\
   outside_mod (fst (gt_supports 0 200)) (snd (gt_supports 0 200)) 300 250 /\
-  Cmod (gt_ir c (1 / 10) 1 4 0 (gt_supports 0 200) 300 250) < 2 * src_eps.
+  Cmod (gt_ir c (1 / 10) 1 4 0 (gt_supports 0 200) 300 250) < 2 * ex_eps.
 Proof.
   cbv zeta.
   assert (H1 : (INR 4 - 1) / (1 / 10) <= 200 - 0) by (simpl; lra).
-  assert (H2 : gt_habs ((1 / 10) ^ 4 / 6) (1 / 10) 4 0 200 <= src_eps).
-  { unfold gt_habs. destruct (Rle_dec 200 0); [lra|]. unfold src_eps. simpl INR. interval. }
+  assert (H2 : gt_habs ((1 / 10) ^ 4 / 6) (1 / 10) 4 0 200 <= ex_eps).
+  { unfold gt_habs. destruct (Rle_dec 200 0); [lra|]. unfold ex_eps. simpl INR. interval. }
   assert (Ho : outside_mod (fst (gt_supports 0 200)) (snd (gt_supports 0 200)) 300 250).
   { unfold gt_supports; cbn [fst snd]. rewrite (Zfloor_IZR 0), (Zceil_IZR 200). intros k. lia. }
   split; [exact H1|]. split; [exact H2|]. split; [exact Ho|].
-  apply (gt_ir_outside_supports_l src_eps); try lia; try lra; try assumption; try (unfold src_eps; lra).
+  apply (gt_ir_outside_supports_l ex_eps); try lia; try lra; try assumption; try (unfold ex_eps; lra).
 Qed.
 
 (* the support search: with enough fuel it terminates on this filter (2 steps) *)
 Example gt_frequency_example :
   let log_alpha := ln (1 / 10) in
   let log_c := gt_log_c false 4 log_alpha in
-  let diff := gt_diff_ang src_eps 4 log_c log_alpha in
+  let diff := gt_diff_ang ex_eps 4 log_c log_alpha in
   diff < 1 /\
   outside_mod_R (1 - diff) (1 + diff) (2 * PI) (IZR 8 * 2 * PI / IZR 16) /\
-  Cmod (gt_fr (exp log_c) (exp log_alpha) 1 4 0 (1 - diff) (1 + diff) 16 8) < 5 / 2 * src_eps.
+  Cmod (gt_fr (exp log_c) (exp log_alpha) 1 4 0 (1 - diff) (1 + diff) 16 8) < 5 / 2 * ex_eps.
 Proof.
   cbv zeta.
-  set (diff := gt_diff_ang src_eps 4 (gt_log_c false 4 (ln (1 / 10))) (ln (1 / 10))).
+  set (diff := gt_diff_ang ex_eps 4 (gt_log_c false 4 (ln (1 / 10))) (ln (1 / 10))).
   assert (Hd : diff < 1).
-  { unfold diff, gt_diff_ang, gt_supp_a, gt_log_c, src_eps, Rpower. simpl INR. simpl fact. simpl INR. interval. }
+  { unfold diff, gt_diff_ang, gt_supp_a, gt_log_c, ex_eps, Rpower. simpl INR. simpl fact. simpl INR. interval. }
   assert (Hd0 : 0 < diff) by (apply gt_diff_ang_pos).
   assert (HPI : 3 < PI < 4) by (split; interval).
   assert (Ho : outside_mod_R (1 - diff) (1 + diff) (2 * PI) (IZR 8 * 2 * PI / IZR 16)).
@@ -95,29 +98,29 @@ Proof.
     - assert (IZR k <= -1) by (apply (IZR_le k (-1)); lia). nra.
     - assert (0 <= IZR k) by (apply (IZR_le 0 k); lia). nra. }
   split; [exact Hd|]. split; [exact Ho|].
-  apply gt_fr_outside_supports_l; try lia; try exact Ho; try lra; try (unfold src_eps; lra).
+  apply gt_fr_outside_supports_l; try lia; try exact Ho; try lra; try (unfold ex_eps; lra).
 Qed.
 
 (* triangular filter with angular vertices 1/2 < 1 < 3/2: K <= 143, so sample 100 of a
    200-sample buffer is outside the support (-K//2 - 1, K//2 + 1) *)
 Example tri_time_example :
-  let K := tri_K src_eps (1 / 2) 1 (3 / 2) in
+  let K := tri_K ex_eps (1 / 2) 1 (3 / 2) in
   (0 <= K <= 143)%Z /\
   outside_mod (fst (tri_supports K)) (snd (tri_supports K)) 200 100 /\
-  Cmod (tri_ir false (1 / 2) 1 (3 / 2) 200 100) < 2 * src_eps.
+  Cmod (tri_ir false (1 / 2) 1 (3 / 2) 200 100) < 2 * ex_eps.
 Proof.
   cbv zeta.
-  assert (HK : (0 <= tri_K src_eps (1 / 2) 1 (3 / 2) <= 143)%Z).
+  assert (HK : (0 <= tri_K ex_eps (1 / 2) 1 (3 / 2) <= 143)%Z).
   { unfold tri_K. split.
-    - rewrite <- (Zceil_IZR 0). apply Zceil_le. left. apply tri_K_real_pos; unfold src_eps; lra.
-    - apply Zceil_glb. unfold tri_K_real, src_eps. interval. }
-  assert (Ho : outside_mod (fst (tri_supports (tri_K src_eps (1 / 2) 1 (3 / 2))))
-                           (snd (tri_supports (tri_K src_eps (1 / 2) 1 (3 / 2)))) 200 100).
+    - rewrite <- (Zceil_IZR 0). apply Zceil_le. left. apply tri_K_real_pos; unfold ex_eps; lra.
+    - apply Zceil_glb. unfold tri_K_real, ex_eps. interval. }
+  assert (Ho : outside_mod (fst (tri_supports (tri_K ex_eps (1 / 2) 1 (3 / 2))))
+                           (snd (tri_supports (tri_K ex_eps (1 / 2) 1 (3 / 2)))) 200 100).
   { unfold tri_supports, outside_mod; cbn [fst snd]. intros k.
-    set (K := tri_K src_eps (1 / 2) 1 (3 / 2)) in *.
+    set (K := tri_K ex_eps (1 / 2) 1 (3 / 2)) in *.
     lia. }
   split; [exact HK|]. split; [exact Ho|].
-  apply (tri_ir_outside_supports_l src_eps); try lia; try lra; try exact Ho; try (unfold src_eps; lra).
+  apply (tri_ir_outside_supports_l ex_eps); try lia; try lra; try exact Ho; try (unfold ex_eps; lra).
 Qed.
 
 (* the support search terminates on a concrete filter: one evaluation suffices when the
